@@ -28,7 +28,7 @@ func init() { core.Register(c15{}) }
 func (c15) ID() string    { return "C15" }
 func (c15) Level() string { return "exploration" }
 func (c15) Rule() string {
-	return "seeded sets of 1..5 configuration sources of the kinds raw document, file (written under .work), command-line arguments (loader.NewArgsLoader with generated --app.config=k=v), and harness loaders of the classes ordered / priority-ordered, over key trees (depth <= 3, lower-case keys without dots) with overlapping and disjoint keys and type changes on overlap (scalar<->scalar of another type, scalar<->list, scalar->mapping, mapping->scalar); the sources are installed through every kind of option sequence (SetConfigLoader, AddConfigLoader, SetConfig, singly and combined, in seeded orders). Oracle: an independent deep-merge model (mappings merge recursively, scalars and lists replace) applied in the contract order (priority-ordered by Order, then ordered by Order, then the rest in the order added; SetConfigLoader replaces the list, the adding options append) is compared with App.Get for every leaf path and every subtree, and with prefix-bound fields of a reflect.StructOf holder. non-trivial = >= 2 effective sources with at least one overlapping path; distinct = canonical (sources, option sequence) signature; every sixth case drives a Configure through 2-3 rounds of AddLoaders+Initialize and checks, after each round, every path on which merge-on-top and merge-from-scratch agree; command-line sources address nested sections with dotted keys; every sixth case has 13-32 sources; file sources with lines longer than 64 KiB; empty values, '=' inside values, a missing configured file; command-line values containing commas; bare flag lists (no program name in front); profile family (a loader whose document depends on what the sources before it contributed); file sources fed through a pipe (/proc/self/fd/N); binder replaced between initializations; a source that yields its document only later; a JSON store; TAB characters as content of values; stateless loaders registered by value"
+	return "seeded sets of 1..5 configuration sources of the kinds raw document, file (written under .work), command-line arguments (loader.NewArgsLoader with generated --app.config=k=v), and harness loaders of the classes ordered / priority-ordered, over key trees (depth <= 3, lower-case keys without dots) with overlapping and disjoint keys and type changes on overlap (scalar<->scalar of another type, scalar<->list, scalar->mapping, mapping->scalar); the sources are installed through every kind of option sequence (SetConfigLoader, AddConfigLoader, SetConfig, singly and combined, in seeded orders). Oracle: an independent deep-merge model (mappings merge recursively, scalars and lists replace) applied in the contract order (priority-ordered by Order, then ordered by Order, then the rest in the order added; SetConfigLoader replaces the list, the adding options append) is compared with App.Get for every leaf path and every subtree, and with prefix-bound fields of a reflect.StructOf holder. non-trivial = >= 2 effective sources with at least one overlapping path; distinct = canonical (sources, option sequence) signature; every sixth case drives a Configure through 2-3 rounds of AddLoaders+Initialize and checks, after each round, every path on which merge-on-top and merge-from-scratch agree; command-line sources address nested sections with dotted keys; every sixth case has 13-32 sources; file sources with lines longer than 64 KiB; empty values, '=' inside values, a missing configured file; command-line values containing commas; bare flag lists (no program name in front); profile family (a loader whose document depends on what the sources before it contributed); file sources fed through a pipe (/proc/self/fd/N); binder replaced between initializations; a source that yields its document only later; a JSON store; TAB characters as content of values; stateless loaders registered by value; preloaded family (a configure that already holds settings); argsOverlap family (overlapping pairs of one command line)"
 }
 func (c15) Assumptions() []string {
 	return []string{
